@@ -7,13 +7,20 @@ NOT_YET = {}
 
 SPECS["C07"] = {
     "level": "proof",
-    "level_text": "VCs for chain resolution (result is exactly the linked sequence; errors only for malformed tables; termination by a decreasing measure) generated from the current source and discharged for tables of any size; the two raw-table decoders are covered by bounded stand-ins (labelled bounded, not proved)",
+    "level_text": "proved for tables of any size: chain resolution returns exactly the linked sequence up to the first end marker, errors only for malformed tables, termination by a decreasing measure; link installation (with frame over the whole table); termination and absence of unhandled exceptions of BOTH raw-table decoders on arbitrary word tables (AKAI: lexicographic measure (growth of the visited flags, distance to the table end); Roland: walk length against the table length); the sector-chained stream yields the concatenation of the listed sectors. Decoder CORRECTNESS (decode then resolve == raw chain for every well-formed chain) is a bounded stand-in: exhaustive over all tables of <= 5/6 AKAI sectors and Roland FATs of 2..4 scannable clusters, on the real code - labelled bounded, not proved",
     "level_note": "trusted: the pyvc VC generator and its built-in models, z3/cvc5; pigeonhole step (a chain of distinct in-table sectors is no longer than the table) is a paper lemma",
-    "contracts": [FAT + "FileAllocationTable.get_path"],
-    "bounded": [("contracts.util_fat", FAT + "FileAllocationTable.get_path")],
+    "contracts": [FAT + "FileAllocationTable.get_path", FAT + "add_to_sector_links",
+                  "smpl_extract.akai.sat:SegmentAllocationTableAdapter._decode",
+                  "smpl_extract.roland.s7xx.fat:FatAreaAdapter._decode",
+                  FAT + "FileStream._read", FAT + "FileStream.read"],
+    "bounded": [("contracts.util_fat", FAT + "FileAllocationTable.get_path"),
+                ("contracts.util_fat", FAT + "add_to_sector_links"),
+                ("contracts.decoders", "bounded:akai_sat_decode"),
+                ("contracts.decoders", "bounded:roland_fat_decode")],
     "trusted_base": ["pyvc VC generator and its built-in models", "z3 5.1.0 / cvc5 1.0.3"],
-    "not_covered": [],
-    "assumptions": ["Python ints are mathematical integers; // and % are floor division for positive divisors"],
+    "not_covered": ["unbounded inductive proof of decoder correctness (DESIGN: stretch goal, not attempted)"],
+    "assumptions": ["Python ints are mathematical integers; // and % are floor division for positive divisors",
+                    "Roland bounded stand-in patches the module constant FAT_NUM_ENTRIES to 13..15 in the driver process"],
 }
 
 
